@@ -65,3 +65,37 @@ pub(crate) fn tick(kind: usize) {
         panic!("{}", BUDGET_EXCEEDED);
     }
 }
+
+// ---- parser events (recorded only between `record_events(true)` and `take_events()`) ----
+thread_local! {
+    static EVENTS: std::cell::RefCell<Option<Vec<String>>> = const { std::cell::RefCell::new(None) };
+}
+
+/// Start (with an empty log) or stop recording the parser events of this thread.
+pub fn record_events(on: bool) {
+    EVENTS.with(|e| *e.borrow_mut() = if on { Some(Vec::new()) } else { None });
+}
+
+/// The events recorded since `record_events(true)`: `G<n>` = entry of `generate_ast` with the precedence of
+/// ordinal n, `T<token>` = the token that became the current one (its `Debug` form).
+pub fn take_events() -> Vec<String> {
+    EVENTS.with(|e| e.borrow_mut().as_mut().map(std::mem::take).unwrap_or_default())
+}
+
+#[inline]
+pub(crate) fn event_enter(precedence: u8) {
+    EVENTS.with(|e| {
+        if let Some(log) = e.borrow_mut().as_mut() {
+            log.push(format!("G{}", precedence));
+        }
+    });
+}
+
+#[inline]
+pub(crate) fn event_token<T: std::fmt::Debug>(token: &T) {
+    EVENTS.with(|e| {
+        if let Some(log) = e.borrow_mut().as_mut() {
+            log.push(format!("T{:?}", token));
+        }
+    });
+}
